@@ -100,3 +100,41 @@ Theorem C08_table_decode_safe_and_canonical :
       run (decode_sym lens) (bits_msb 64 v) = Ok (a, rest) /\
       rest = bits_msb (64 - k) v /\ length rest = (64 - k)%nat.
 Proof. exact tree_decode_correct. Qed.
+
+(* The scheduler's arrays (pqueue / deque storage allocated by init() with the regenerated
+   capacities): no queue of the compressor ever holds more elements than it was allocated
+   with, for every worker count, mode, input and interleaving; no dequeue from an empty queue,
+   no push on a full deque, no failing assert (bad = false).  For the decompressor the same for
+   input_q, retr_q, emit_q, reord_q (scan_q / unord_q / order_q: asserted by hook H3 only) and
+   the asserts guarding attach() (a pointer computed from a released input block: finding F4)
+   never fire. *)
+From LBZ Require SchedC.SchedCIface Gen.SchedCTab SchedC.SchedC SchedC.SchedCInv.
+From LBZ Require Gen.SchedXTab SchedX.XState SchedX.XModel SchedX.XInvDefs SchedX.XC10 SchedX.XC11.
+
+Theorem C08_compressor_queues_in_bounds :
+  forall (Data Enc : Type) (data_len : Data -> N) (enc_empty : Enc) (collect : Enc -> Data -> Enc * Data * bool)
+         n u lvl inp s, SchedCInv.reachable data_len enc_empty collect n u lvl inp s ->
+    (length (SchedC.SchedC.coll_q s) <= SchedC.SchedC.cap_coll n /\ length (SchedC.SchedC.trans_q s) <= SchedC.SchedC.cap_trans n /\
+     length (SchedC.SchedC.reord_q s) <= SchedC.SchedC.cap_reord n /\ length (SchedC.SchedC.output_q s) <= SchedC.SchedC.cap_output n)%nat /\
+    SchedC.SchedC.bad s = false.
+Proof.
+  intros Data Enc data_len enc_empty collect n u lvl inp s R. split.
+  - destruct (SchedCInv.c11_capacity R) as (A & B & C & D & _). repeat split; assumption.
+  - exact (SchedCInv.c11_no_ub R).
+Qed.
+
+Theorem C08_decompressor_queues_in_bounds_partial :
+  forall n tin tout ultra st,
+    XInvDefs.reach XModel.gen_cfg (XModel.init_state n tin tout ultra) st ->
+    XState.x_bad_attach st = false /\
+    (XState.x_failed st = None ->
+     let cap f := f (XState.x_total_in st) (XState.x_num_worker st) (XState.x_total_out st) in
+     (N.of_nat (length (XState.x_input_q st)) <= cap SchedXTab.cap_input_q /\
+      N.of_nat (length (XState.x_retr_q st)) <= cap SchedXTab.cap_retr_q /\
+      N.of_nat (length (XState.x_emit_q st)) <= cap SchedXTab.cap_emit_q /\
+      N.of_nat (length (XState.x_reord_q st)) <= cap SchedXTab.cap_reord_q)%N).
+Proof.
+  intros n tin tout ultra st R. split.
+  - exact (proj1 (XC10.C10_no_stale_attach_gen n tin tout ultra st R)).
+  - intros NF. exact (XC11.C11x_capacity_gen n tin tout ultra st R NF).
+Qed.
